@@ -138,3 +138,67 @@ func selectionTable(target ssa.Instruction, o exprOpts, subst map[ssa.Value]stri
 	}
 	return rows, reached, true
 }
+
+// runWithAtoms follows f from its entry with the atoms valued by av and
+// returns the return instruction reached; watch sees every executed instruction.
+func runWithAtoms(f *ssa.Function, o exprOpts, av atomFn, watch func(ssa.Instruction)) (*ssa.Return, bool) {
+	memo := map[ssa.Value]string{}
+	env := intEnv{params: map[ssa.Value]int64{}, lens: map[ssa.Value]int64{}, unknown: map[ssa.Value]bool{}, cells: map[ssa.Value]int64{}, skipLoops: true}
+	env.opaque = func(v ssa.Value) (int64, bool) {
+		if !isIntegerT(v.Type()) && !isBoolT(v.Type()) {
+			return 0, false
+		}
+		if _, isC := v.(*ssa.Const); isC {
+			return 0, false
+		}
+		s, have := memo[v]
+		if !have {
+			s = abbr(exprStr(v, o))
+			memo[v] = s
+		}
+		if s == "*" {
+			if _, isPhi := v.(*ssa.Phi); !isPhi {
+				return 0, false
+			}
+		}
+		return av(s)
+	}
+	if watch != nil {
+		env.watch = func(in ssa.Instruction, _ intEnv) { watch(in) }
+	}
+	n := 4000
+	env.fuel = &n
+	last := walkBlocks(f.Blocks[0], nil, env, func(*ssa.BasicBlock) bool { return false })
+	if last == nil {
+		return nil, false
+	}
+	r, ok := last.Instrs[len(last.Instrs)-1].(*ssa.Return)
+	return r, ok
+}
+
+// eqAtom: s is the comparison (a == b) or (a != b) of the two given
+// renderings (either order); returns whether it is, and whether it is negated.
+func eqAtom(s, a, b string) (is, neg bool) {
+	switch s {
+	case "(" + a + " == " + b + ")", "(" + b + " == " + a + ")":
+		return true, false
+	case "(" + a + " != " + b + ")", "(" + b + " != " + a + ")":
+		return true, true
+	}
+	return false, false
+}
+
+// boundTarget: for a bound-method closure (x.m used as a value) the method itself.
+func boundTarget(f *ssa.Function) *ssa.Function {
+	if f == nil || f.Synthetic == "" || len(f.Blocks) != 1 {
+		return f
+	}
+	for _, in := range f.Blocks[0].Instrs {
+		if call, ok := in.(*ssa.Call); ok {
+			if sc := call.Call.StaticCallee(); sc != nil {
+				return sc
+			}
+		}
+	}
+	return f
+}
